@@ -82,6 +82,19 @@ def check(case, rec):
     p2, t2 = guarded(find_extrema, xin, fs, fr, **kwargs)
     if not (np.array_equal(peaks, p2) and np.array_equal(troughs, t2)):
         raise Violation('second-call-differs', 'find_extrema called twice with the same filter_kwargs object %r gives different extrema' % (kwargs.get('filter_kwargs'),))
+    # another filter length on the same signal, band and rate in the same process: results must not depend on what was
+    # computed before (no per-process state keyed too coarsely)
+    fk2 = {'n_cycles': {1: 2, 2: 3, 3: 4, 4: 5, 5: 4, 7: 5}.get((fk or {}).get('n_cycles', 3), 2)}
+    if gen.filt_len_of({'fs': fs, 'f_range': list(fr)}, fk2) + 4 < n:
+        try:
+            exp2 = ref.ref_extrema(x, fs, fr, fk2, bnd, first, pad)
+        except Discard:
+            exp2 = None
+        if exp2 is not None and len(exp2[0]) >= 2 and len(exp2[1]) >= 2:
+            got2 = guarded(find_extrema, xin, fs, fr, boundary=bnd, first_extrema=first, pad=pad, filter_kwargs=dict(fk2))
+            if not (np.array_equal(got2[0], exp2[0]) and np.array_equal(got2[1], exp2[1])):
+                raise Violation('second-configuration-differs-from-reference', 'after a call with filter_kwargs=%r, the call with %r (pad=%s) deviates from the reference' % (fk, fk2, pad))
+            rec.label('second-configuration')
     rec.label(*gen.signal_classes(case['sig']))
     rec.label('dtype:' + case.get('dtype', 'float64'), 'first:%s' % first, 'pad:%s' % pad, 'boundary:%s' % ('0' if bnd == 0 else '>0'),
               'filt:' + ('default' if not fk else ('n_seconds' if 'n_seconds' in fk else 'n_cycles')))
